@@ -255,9 +255,34 @@ def drive_and_validate(prop, tier, seed, bins, workdir, shards, tlc_timeout):
     return res
 
 
+def shard_digest(path):
+    """digest of a trace shard without the fields that merely name the build profile"""
+    import hashlib
+    h = hashlib.sha256()
+    with open(path) as f:
+        for i, line in enumerate(f):
+            if i == 0:
+                continue        # header
+            h.update(re.sub(r'"dbg":[01],?', "", line).encode())
+    return h.hexdigest()
+
+
 def validate_jobs(jobs, res, tlc_timeout):
     """validate recorded traces in parallel (one JVM each, one worker: the traces are linear);
-    jobs = [(profile, shard path)]; accumulates into res (violations, tool_errors, shards, trace_states, distinct)"""
+    jobs = [(profile, shard path)]; accumulates into res (violations, tool_errors, shards, trace_states, distinct).
+    A shard whose events are identical (up to the profile flag) to a shard of another profile that is being
+    validated is not validated a second time: the verdict is a function of the events."""
+    seen = {}
+    unique = []
+    for prof, s in jobs:
+        d = shard_digest(s)
+        if d in seen:
+            res["shards_identical_across_profiles"] = res.get("shards_identical_across_profiles", 0) + 1
+            res.setdefault("identical_pairs", []).append((os.path.basename(s), os.path.basename(seen[d])))
+            continue
+        seen[d] = s
+        unique.append((prof, s))
+    jobs = unique
     with concurrent.futures.ThreadPoolExecutor(max_workers=min(14, max(1, len(jobs)))) as ex:
         futs = {ex.submit(validate_shard, s, tlc_timeout): (prof, s) for prof, s in jobs}
         for fut in concurrent.futures.as_completed(futs):
@@ -402,6 +427,7 @@ def main(argv):
             "mc_states": mc["states"], "mc_transitions": mc["transitions"],
             "trace_states": dv["trace_states"], "trace_events_validated": dv["events"],
             "trace_shards": dv["shards"], "impl_executions": dv["execs"],
+            "trace_shards_identical_to_a_validated_shard_of_the_other_profile": dv.get("shards_identical_across_profiles", 0),
             "spec_transitions_replayed": mc.get("replayed", 0), "replay_executions": mc.get("replay_execs", 0),
             "per_profile": dv["profiles"], "executions_by_operation": dv["by_op"], "executions_by_kind": dv["by_kind"],
             "validated_events_by_operation": dv.get("trace_ops", {}),
